@@ -12,6 +12,7 @@ mod e_c15;
 mod e_c16;
 mod e_c17;
 mod e_c18;
+mod e_c20;
 mod exec;
 mod scen;
 mod sim;
@@ -26,6 +27,7 @@ fn dispatch(w: &[&str]) -> String {
         Some("set") => e_c13::handle(w),
         Some("cell") => e_c05::handle(w),
         Some("hdr") => e_c12::handle(w),
+        Some("dyn") => e_c20::handle(w),
         Some("qpack") => e_c11::handle(w),
         Some("wbuf") => e_c14::handle(w),
         Some("quinn") => e_c17::handle(w),
